@@ -4,12 +4,16 @@ From Coq Require Import List NArith Bool.
 From HC Require Import Stm.Prog Map2.Ops2 Map2.GenSews.
 Open Scope N_scope.
 
+(* syntactic comparison first (fast, also when it fails): after unfolding the two constants the programs must be the
+   same term up to the names of bound variables; [reflexivity] then only re-checks identical terms *)
+Ltac syn_eq := lazymatch goal with |- ?a = ?b => first [constr_eq a b | fail 1 "the generated program differs from the model"] end.
+
 Section Laws.
 Context `{Sig}.
-Lemma gen_one_sew_ok n ks l r : gen_one_sew n ks l r = one_sew n ks l r. Proof. reflexivity. Qed.
-Lemma gen_one_unsew_ok n ks l : gen_one_unsew n ks l = one_unsew n ks l. Proof. reflexivity. Qed.
-Lemma gen_two_sew_ok n ks l r : gen_two_sew n ks l r = two_sew n ks l r. Proof. reflexivity. Qed.
-Lemma gen_two_unsew_ok n ks l : gen_two_unsew n ks l = two_unsew n ks l. Proof. reflexivity. Qed.
+Lemma gen_one_sew_ok n ks l r : gen_one_sew n ks l r = one_sew n ks l r. Proof. cbv beta zeta delta [gen_one_sew one_sew]. syn_eq; reflexivity. Qed.
+Lemma gen_one_unsew_ok n ks l : gen_one_unsew n ks l = one_unsew n ks l. Proof. cbv beta zeta delta [gen_one_unsew one_unsew]. syn_eq; reflexivity. Qed.
+Lemma gen_two_sew_ok n ks l r : gen_two_sew n ks l r = two_sew n ks l r. Proof. cbv beta zeta delta [gen_two_sew two_sew]. syn_eq; reflexivity. Qed.
+Lemma gen_two_unsew_ok n ks l : gen_two_unsew n ks l = two_unsew n ks l. Proof. cbv beta zeta delta [gen_two_unsew two_unsew]. syn_eq; reflexivity. Qed.
 
 Theorem sews_are_the_source :
   (forall n ks l r, gen_one_sew n ks l r = one_sew n ks l r) /\ (forall n ks l, gen_one_unsew n ks l = one_unsew n ks l) /\
